@@ -538,6 +538,6 @@ var subReads = runlog.Register(&runlog.Sub[Case]{
 	Journal: true,
 })
 
-func TestPureReads(t *testing.T) { subReads.Check(t, 2000, 130000) }
+func TestPureReads(t *testing.T) { subReads.Check(t, 1500, 130000) }
 
 func TestReplay(t *testing.T) { runlog.ReplayMain(t) }
